@@ -22,6 +22,7 @@ Clock: `time.time()` = now_ms/1000 (use multiples of 125 ms: exact floats), Send
 """
 from __future__ import annotations
 
+import os
 import sys
 import types
 from dataclasses import dataclass, field, replace
@@ -626,16 +627,40 @@ class Impl:
 
 
 def batch_parallel(lines, workers=6):
-    """stateless driver batch, split over several driver processes (order preserved)"""
-    from concurrent.futures import ThreadPoolExecutor
+    """stateless driver batch split over several driver processes (order preserved).  The processes read
+    and write temporary FILES, so no Python thread sits in a pipe loop (threads + pipes were slower than one
+    process on a loaded machine)."""
+    import shutil
+    import subprocess
+    import tempfile
 
     if len(lines) < 2000:
         return C.Driver().batch(lines) if lines else []
     n = (len(lines) + workers - 1) // workers
     chunks = [lines[i:i + n] for i in range(0, len(lines), n)]
-    with ThreadPoolExecutor(max_workers=workers) as ex:
-        parts = list(ex.map(lambda ch: C.Driver().batch(ch), chunks))
-    return [l for p in parts for l in p]
+    d = tempfile.mkdtemp(prefix="sessdrv", dir="/dev/shm" if os.path.isdir("/dev/shm") else None)
+    try:
+        procs = []
+        for k, ch in enumerate(chunks):
+            with open(os.path.join(d, f"in{k}"), "w") as f:
+                f.write("\n".join(ch) + "\n")
+            fi, fo = open(os.path.join(d, f"in{k}")), open(os.path.join(d, f"out{k}"), "w")
+            procs.append((subprocess.Popen([C.DRIVER], stdin=fi, stdout=fo), fi, fo))
+        out = []
+        for k, (p, fi, fo) in enumerate(procs):
+            rc = p.wait()
+            fi.close()
+            fo.close()
+            with open(os.path.join(d, f"out{k}")) as f:
+                part = f.read().split("\n")
+            if part and part[-1] == "":
+                part.pop()
+            if rc != 0 or len(part) != len(chunks[k]):
+                raise RuntimeError(f"driver failed rc={rc} replies={len(part)}/{len(chunks[k])}")
+            out += part
+        return out
+    finally:
+        shutil.rmtree(d, ignore_errors=True)
 
 
 def compare_steps(impl: Impl, cases, driver=None, stats=None):
@@ -818,8 +843,64 @@ def defective(a: AbsConn, defect: str, mtype, body, seq, possdup=False, now_ms=T
         kw["target"] = a.sender + "X"
     elif defect == "swapped":
         kw["sender"], kw["target"] = a.sender, a.target
-    body = list(body) + ([(43, "Y"), (122, stamp(now_ms - 3000))] if possdup else [])
+    elif defect.startswith("sender="):
+        kw["sender"] = defect[7:]
+    elif defect.startswith("target="):
+        kw["target"] = defect[7:]
+    elif defect.startswith("begin="):
+        kw["begin"] = defect[6:]
+    if possdup is True:
+        body = list(body) + [(43, "Y"), (122, stamp(now_ms - 3000))]
+    elif isinstance(possdup, str):  # an explicit (possibly odd) PossDupFlag spelling
+        body = list(body) + [(43, possdup), (122, stamp(now_ms - 3000))]
+    else:
+        body = list(body)
     return inbound(a, mtype, body, seq=seq, now_ms=now_ms, **kw)
+
+
+# ---- 'almost equal' values for every field the session layer compares (round 4) -------------------
+
+NEAR_43 = ["Y", "N", "y", "", "YES", " Y", "Y "]
+
+
+def near_values(v: str):
+    """spellings that differ from `v` only slightly: padding, case, NUL, NBSP, truncation, doubling"""
+    sw = v.swapcase() if v.swapcase() != v else v + "x"
+    return [("trail-space", v + " "), ("lead-space", " " + v), ("tab", v + "\t"), ("case", sw),
+            ("nul", v + "\x00"), ("nbsp", v + "\xa0"), ("truncated", v[:-1] if len(v) > 1 else v + v),
+            ("doubled", v + v), ("empty", "")]
+
+
+def near_numbers(n: int):
+    """spellings around the decimal rendering of `n` (ASCII only: the model's int() is ASCII)"""
+    return [("lead-space", f" {n}"), ("trail-space", f"{n} "), ("lead-zero", f"0{n}"), ("plus", f"+{n}"),
+            ("underscore", f"{n}_"), ("inner-underscore", f"{str(n)[0]}_{str(n)[1:]}" if n > 9 else f"0_{n}"),
+            ("nul", f"{n}\x00"), ("float", f"{n}.0"), ("hex", f"0x{n}"), ("minus", f"-{n}"), ("empty", ""),
+            ("inner-space", f"{n} 0")]
+
+
+def near_cases(rng, states=(6, 7, 12, 17), roles=(1, 2)):
+    """single steps with near-miss VALUES in the compared header fields (BeginString, CompIDs, MsgSeqNum,
+    PossDupFlag): yields (AbsConn, sr, event, label)."""
+    k = rng.randrange(1000)
+    for st in states:
+        for role in roles:
+            for (lab, mt, body) in (("App", "D", [(58, "x")]), ("Logon", "A", [(98, "0"), (108, "30")]), ("Heartbeat", "0", [])):
+                k += 1
+                a = with_journal(base_state(st, role, k), "app")
+                a.sock = True
+                fams = ([("sender", f"sender={v}", n) for n, v in near_values(a.target)]
+                        + [("target", f"target={v}", n) for n, v in near_values(a.sender)]
+                        + [("begin", f"begin={v}", n) for n, v in near_values("FIX.4.4")])
+                for field_, d, n in fams:
+                    yield (a, "all", ("recv", T0, defective(a, d, mt, body, a.next_in, False, T0)), f"near:{field_}:{n}")
+                for base_, bl in ((a.next_in, "at"), (a.next_in - 1, "below")):
+                    if base_ < 1:
+                        continue
+                    for n, v in near_numbers(base_):
+                        yield (a, "all", ("recv", T0, defective(a, "none", mt, body, v, False, T0)), f"near:seq-{bl}:{n}")
+                    for pv in NEAR_43:
+                        yield (a, "all", ("recv", T0, defective(a, "none", mt, body, base_, pv, T0)), f"near:43-{bl}:{pv!r}")
 
 
 def base_state(st, role, k, rng=None) -> AbsConn:
@@ -927,8 +1008,10 @@ def fresh(role, rng, sender="INIT", target="ACPT") -> AbsConn:
     return with_journal(a, rng.choice(["empty", "app", "mixed", "holes", "sess"]))
 
 
-def next_event(rng, a: AbsConn, now):
-    """one plausible-or-hostile event for the current abstract state; returns (sr, event, label)"""
+def next_event(rng, a: AbsConn, now, wide=False):
+    """one plausible-or-hostile event for the current abstract state; returns (sr, event, label).
+    wide: also configurations / values the library's own endpoints never produce – either role opens
+    the session, any transport kind for any role, odd PossDupFlag spellings, near-miss CompIDs."""
     sr = rng.choice(["all", "all", "none", f"d{max(1, a.next_out - 2)}"])
     r = rng.random()
     ni = a.next_in
@@ -936,6 +1019,14 @@ def next_event(rng, a: AbsConn, now):
     def rx(lab, mt, body, seq="auto", pd=False, defect="none"):
         return (sr, ("recv", now, defective(a, defect, mt, body, ni if seq == "auto" else seq, pd, now)), "recv:" + lab)
 
+    if wide and a.state <= 3 and r < 0.6:
+        kinds = {2: ["acc"] * 4 + ["init"], 1: ["init"] * 4 + ["fail", "acc"]}.get(a.role, ["init", "acc"])
+        return (sr, ("conn", rng.choice(kinds)), "conn")
+    if wide and a.state == 6 and r < (0.3 if a.role == 2 else 0.6):
+        return (sr, ("send", now, ("A", [(98, "0"), (108, str(a.hb))])), "send:Logon")
+    if wide and a.state == 7 and r < 0.25:
+        mt, tags, lab = rng.choice(send_classes())
+        return (sr, ("send", now, (mt, tags)), "send:" + lab)
     if a.state <= 3:
         if r < 0.6:
             return (sr, ("conn", "acc" if a.role == 2 else rng.choice(["init", "init", "fail"])), "conn")
@@ -962,7 +1053,10 @@ def next_event(rng, a: AbsConn, now):
         if k < 0.75:
             return rx("App", "D", [(11, "gap"), (58, "early")], ni + rng.choice([1, 2, 7]))
         if k < 0.85:
-            return rx("App", "D", [(11, "old")], max(0, ni - rng.choice([1, 2])), pd=rng.random() < 0.5)
+            pd = rng.random() < 0.5
+            if wide and rng.random() < 0.5:
+                pd = rng.choice(NEAR_43)
+            return rx("App", "D", [(11, "old")], max(0, ni - rng.choice([1, 2])), pd=pd)
         return rx("App", "D", [(11, f"c{ni}"), (58, "resent")], ni, pd=True)
     if r < 0.40:
         tid = a.test_req_id if a.test_req_id is not None else 5
@@ -998,13 +1092,16 @@ def next_event(rng, a: AbsConn, now):
         return (sr, ("reset",), "reset")
     if r < 0.985:
         d = rng.choice(DEFECTS)
+        if wide and rng.random() < 0.5:
+            which = rng.choice(["sender", "target"])
+            d = f"{which}=" + rng.choice(near_values(a.target if which == "sender" else a.sender))[1]
         return rx("defect-" + d, rng.choice(["D", "0", "A"]), [(58, "x")], rng.choice([ni, ni - 1, None]), defect=d)
     return rx("App", "D", [(58, "x")], rng.choice([None, "abc", f" {ni} "]))
 
 
-def run_history(impl: Impl, rng, max_len, stats=None):
+def run_history(impl: Impl, rng, max_len, stats=None, wide=False):
     """generate and run one history on the implementation; returns (start, [(sr, ev, label, eff, post)])"""
-    role = rng.choice([1, 1, 2])
+    role = rng.choice([0, 1, 1, 2, 2]) if wide else rng.choice([1, 1, 2])
     start = fresh(role, rng)
     impl.load(start)
     now = T0
@@ -1013,7 +1110,7 @@ def run_history(impl: Impl, rng, max_len, stats=None):
     n = rng.randint(max_len // 2, max_len)
     for _ in range(n):
         now += rng.choice([0, 125, 250, 1000, 1000, 3000, a.hb * 1000, a.hb * 2000 + 125])
-        sr, ev, lab = next_event(rng, a, now)
+        sr, ev, lab = next_event(rng, a, now, wide) if wide else next_event(rng, a, now)
         del impl.eff[:]
         impl.apply(sr, ev)
         eff, post = impl.effects(), impl.dump()
@@ -1024,10 +1121,10 @@ def run_history(impl: Impl, rng, max_len, stats=None):
     return start, steps
 
 
-def compare_histories(impl: Impl, rng, n_hist, max_len, driver=None, stats=None):
+def compare_histories(impl: Impl, rng, n_hist, max_len, driver=None, stats=None, wide=False):
     """lock-step comparison after every event.  Returns (events, disagreements)."""
     drv = driver or C.Driver()
-    hist = [run_history(impl, rng, max_len, stats) for _ in range(n_hist)]
+    hist = [run_history(impl, rng, max_len, stats, wide) for _ in range(n_hist)]
     lines, index = [], []
     for hi, (start, steps) in enumerate(hist):
         lines.append("sess.load " + start.tokens())
